@@ -153,6 +153,30 @@ def shard_enum(shard, nshards, tier, seed, scratch):
                     if key not in seen:
                         seen.add(key)
                         failures.append({'leg': 'enum', 'clause': v.clause, 'detail': v.detail, 'case': {'table': table, 'delim': dlm, 'policy': policy, 'line_sep': '\n', 'encoding': None}})
+    if shard == 0:
+        # latin-1 preserves every byte value: all 256 code points, as single-character fields and in one run per record
+        allcp = [chr(i) for i in range(256)]
+        for policy, dlm in (('quoted_rfc', ','), ('quoted_rfc', '::'), ('quoted', ';'), ('simple', '\t'), ('monocolumn', '')):
+            banned = {'quoted_rfc': '', 'quoted': '\r\n', 'simple': '\r\n' + dlm, 'monocolumn': '\r\n'}[policy]
+            cps = [c for c in allcp if c not in banned]
+            tables = [[[c] for c in cps]] if policy == 'monocolumn' else [[[c, 'x' + c + 'y'] for c in cps], [[''.join(cps[i:i + 16]) for i in range(0, len(cps), 16)]]]
+            for table in tables:
+                if table and table[0] and table[0][0].startswith('\xef\xbb\xbf'):
+                    continue
+                for sep in ('\n', '\r\n'):
+                    try:
+                        check_table(table, dlm, policy, sep, 'latin-1', None)
+                        stats.evaluations += 1
+                        stats.nontrivial_counted += 1
+                    except Violation as v:
+                        key = ('latin1-all', policy, v.clause)
+                        if key not in seen:
+                            seen.add(key)
+                            d = dict(v.detail)
+                            for k in ('table', 'got', 'payload'):
+                                d[k] = repr(d.get(k))[:300]
+                            failures.append({'leg': 'latin1-all-bytes', 'clause': v.clause, 'detail': d, 'case': {'table': table, 'delim': dlm, 'policy': policy, 'line_sep': sep, 'encoding': 'latin-1'}})
+        stats.bump('latin-1-all-256-code-points')
     stats.samples = stats.samples[:3]
     return {'stats': stats.export(), 'failures': failures, 'extra': {'exhaustive': True}}
 
